@@ -13,7 +13,11 @@ cd /verif
 sed "s#=> /repo#=> $wt#" go.mod > /tmp/revert-$c.mod
 cp go.sum /tmp/revert-$c.sum
 go build -modfile=/tmp/revert-$c.mod -tags verif -o bin/icesim-revert-$c ./cmd/icesim
+if [ -n "$RACE" ]; then
+  CGO_ENABLED=1 go build -race -modfile=/tmp/revert-$c.mod -tags verif -o bin/icesim-revert-$c-race ./cmd/icesim
+  export ICESIM_RACE_BIN=/verif/bin/icesim-revert-$c-race
+fi
 set +e
 ./bin/icesim-revert-$c check $prop $tier 2>&1 | cut -c1-500 | head -${LINES_OUT:-6}
 git -C /repo worktree remove --force $wt
-rm -f /tmp/revert-$c.mod /tmp/revert-$c.sum bin/icesim-revert-$c
+rm -f /tmp/revert-$c.mod /tmp/revert-$c.sum bin/icesim-revert-$c bin/icesim-revert-$c-race
